@@ -77,15 +77,24 @@ def build_lean(prop):
     return True, "", None, True
 
 def theorem_names(prop):
-    """fully qualified names of every theorem in the property's Props module(s)"""
+    """fully qualified names of every theorem in the property's Props module(s) (nested namespaces and sections followed)"""
     names = []
     for mod in modules_of(prop):
         src = open(os.path.join(LEAN, *mod.split(".")) + ".lean").read()
         src_nc = re.sub(r"/-.*?-/", "", src, flags=re.S)
         src_nc = re.sub(r"--[^\n]*", "", src_nc)
-        ns = re.search(r"^namespace\s+([A-Za-z0-9_.]+)", src_nc, flags=re.M)
-        prefix = (ns.group(1) + ".") if ns else ""
-        names += [prefix + n for n in re.findall(r"^theorem\s+([A-Za-z0-9_'.]+)", src_nc, flags=re.M)]
+        stack = []          # ("ns", name) | ("sec", name)
+        for line in src_nc.splitlines():
+            m = re.match(r"^\s*namespace\s+([^\s]+)", line)
+            if m: stack.append(("ns", m.group(1))); continue
+            m = re.match(r"^\s*(?:noncomputable\s+)?section(?:\s+([^\s]+))?\s*$", line)
+            if m: stack.append(("sec", m.group(1) or "")); continue
+            m = re.match(r"^\s*end(?:\s+([^\s]+))?\s*$", line)
+            if m and stack: stack.pop(); continue
+            m = re.match(r"^(?:@\[[^\]]*\]\s*)?(?:protected\s+)?theorem\s+([^\s:({\[]+)", line)
+            if m:
+                prefix = ".".join(n for k, n in stack if k == "ns")
+                names.append((prefix + "." if prefix else "") + m.group(1))
     return names, None
 
 def audit(prop):
